@@ -502,6 +502,18 @@ package fzf
 //@ ensures !result
 //@ package github.com/junegunn/fzf/src
 
+// readChannel (input given as a channel of records): every record received is handed over, the empty ones too.
+//@ func Reader.readChannel
+//@ property C06
+//@ requires r != nil
+//@ ghost nrecv int
+//@ ghost calls_pusher int -- counted by the verifier at every call through r.pusher
+//@ ghost @"if !more {" nrecv = nrecv + (more ? 1 : 0)
+//@ effect call r.pusher requires true
+//@ ensures calls_pusher == nrecv
+//@ loop 1
+//@   invariant calls_pusher == nrecv
+
 // Ownership: once a record has been handed to the pusher (it becomes an item's text without copying),
 // its bytes are never written again - neither by a later Read into the slab nor by stitching a later
 // record into the leftover buffer.  (Ghost "owned" bits are set by the pusher effect; every write to
@@ -515,7 +527,7 @@ package fzf
 // is in exactly one place - already cut, waiting in leftover, or still in buf - so nothing is lost or doubled.
 //@ ghost nread int
 //@ ghost ncut int
-//@ ghost @"buf := slab[:n]" nread = nread + n
+//@ ghost @after"n, err = src.Read(scope)" nread = nread + n -- counted where Read returns them: what arrives together with io.EOF is data too
 //@ ghost @"buf = buf[i+1:]" ncut = ncut + len(leftover) + len(slice)
 //@ ghost @"r.pusher(leftover)" ncut = ncut + len(leftover)
 //@ ensures nread == ncut
@@ -538,7 +550,7 @@ package fzf
 //@   invariant nread == ncut + len(leftover)
 //@   invariant calls_pusher == ndel && nlast == 0
 //@ loop 2
-//@   invariant 0 <= i && 0 <= n && n <= len(scope) && sameArray(scope, slab) && scope.off == slab.off && len(scope) <= len(slab)
+//@   invariant 0 <= i && n == 0 && sameArray(scope, slab) && scope.off == slab.off && len(scope) <= len(slab)
 //@   invariant fresh(slab) && len(slab) >= 1 && len(slab) <= 131072 && unowned(slab, 0, cap(slab))
 //@   invariant unowned(leftover, len(leftover), cap(leftover)) && fresh(leftover) && !sameArray(leftover, slab)
 //@   invariant forall(k, 0, len(leftover), leftover[k] != delim)
@@ -1163,6 +1175,7 @@ package fzf
 //@ ghost @after"trimmed, offsets, newState := extractColor(" gout = newState
 //@ ghost @after"trimmed, offsets, newState := extractColor(" goff = offsets
 //@ requires len(data) < 2147483648
+//@ callsite ToChars requires arg0.arr == trimmed.arr && arg0.off == trimmed.off && len(arg0) == len(trimmed) -- what is handed on is the stripped text, colour spans or not
 //@ modifies lineAnsiState, prevLineAnsiState
 //@ ensures nx == 1 && gin == old(lineAnsiState) && prevLineAnsiState == old(lineAnsiState) && lineAnsiState == gout && r1 == goff
 //@ func Run closure @"trimmed, _, _ := extractColor(byteString(data), nil, nil)"
@@ -1170,6 +1183,7 @@ package fzf
 //@ ghost nx int
 //@ ghost @"trimmed, _, _ := extractColor(" nx = nx + 1
 //@ requires len(data) < 2147483648
+//@ callsite ToChars requires arg0.arr == trimmed.arr && arg0.off == trimmed.off && len(arg0) == len(trimmed)
 //@ ensures nx == 1 && r1 == nil
 
 // Streaming filter mode (fzf -f QUERY without sorting): for every record read, the line is printed iff the
@@ -1187,6 +1201,17 @@ package fzf
 // The item builder used with --with-nth: the display text is the transformed line, and the item keeps the
 // record it was built from - the very slice handed over by the reader - as origText; items are numbered in
 // the order they are accepted.
+// The default item builder (no --with-nth): while header lines are still due the record goes to the header - an empty
+// record too - and is not an item; afterwards every record becomes an item, numbered consecutively.
+//@ func Run closure @"item.text, item.colors = ansiProcessor(data)"
+//@ property C06
+//@ requires item != nil && opts != nil && eventBox != nil && ansiProcessor != nil && itemIndex < 2147483647
+//@ modifies *item, header, header[len(header):cap(header)], itemIndex
+//@ effect call ansiProcessor requires true
+//@ ensures result == !(old(len(header)) < opts.HeaderLines)
+//@ ensures !result ==> len(header) == old(len(header)) + 1 && itemIndex == old(itemIndex)
+//@ ensures result ==> item.text.Index == old(itemIndex) && itemIndex == old(itemIndex) + 1 && len(header) == old(len(header))
+
 //@ func Run closure @"item.origText = &data"
 //@ property C07 C06
 //@ requires item != nil && opts != nil && opts.Theme != nil && eventBox != nil && nthTransformer != nil && ansiProcessor != nil && len(data) < 2147483648
